@@ -3,6 +3,9 @@
 //!
 //! input line : `<transport> <batchcfg> <message-hex|-> [quiet-ms]`
 //!              transport = `http` | `ws` (text frame when the message is UTF-8, else binary) | `wsb` (binary frame)
+//!                        | `httpl` (as http, with an explicit Content-Length header)
+//!                        | `httpc` (as http, the body delivered as 1..3 data frames of unknown total length -- what a
+//!                          `Transfer-Encoding: chunked` / HTTP/2 request without Content-Length looks like to the service)
 //!              batchcfg  = `d` (Disabled) | `u` (Unlimited) | `l<n>` (Limit(n))
 //! output line: `s=<http-status|-> f=<frame-hex,...|-> l=<handler-log|-> a=<1|0>`
 //!              f = HTTP: the response body (one frame; `-` when empty); WS: EVERY frame the server sent on the
@@ -260,13 +263,28 @@ impl Engine {
 		self.servers.get_mut(key)
 	}
 
-	async fn http_case(&mut self, key: &str, msg: Vec<u8>) -> String {
+	async fn http_case(&mut self, key: &str, msg: Vec<u8>, framing: &str) -> String {
+		use http_body_util::{StreamBody, combinators::BoxBody};
+		use std::convert::Infallible;
 		let Some(b) = batch_cfg(key) else { return "?bad-cfg".into() };
 		let mut svc = Server::builder().set_config(server_cfg(b)).to_service_builder().build(self.methods.clone(), self.stop.clone());
-		let mut req = http::Request::new(Full::new(Bytes::from(msg)));
+		let len = msg.len();
+		let body: BoxBody<Bytes, Infallible> = if framing == "httpc" {
+			// cut points derived from the message itself (deterministic): after 1/3 and 2/3 of the bytes
+			let cuts = [len / 3, (2 * len) / 3];
+			let frames: Vec<Vec<u8>> = vec![msg[..cuts[0]].to_vec(), msg[cuts[0]..cuts[1]].to_vec(), msg[cuts[1]..].to_vec()];
+			let it = frames.into_iter().filter(|f| !f.is_empty()).map(|f| Ok::<_, Infallible>(hyper::body::Frame::data(Bytes::from(f))));
+			BoxBody::new(StreamBody::new(futures_util::stream::iter(it)))
+		} else {
+			BoxBody::new(Full::new(Bytes::from(msg)))
+		};
+		let mut req = http::Request::new(body);
 		*req.method_mut() = http::Method::POST;
 		*req.uri_mut() = "/".parse().unwrap();
 		req.headers_mut().insert(http::header::CONTENT_TYPE, http::HeaderValue::from_static("application/json"));
+		if framing == "httpl" {
+			req.headers_mut().insert(http::header::CONTENT_LENGTH, http::HeaderValue::from_str(&len.to_string()).unwrap());
+		}
 		let rp = svc.call(req).await.expect("service is infallible");
 		let status = rp.status().as_u16();
 		let body = rp.into_body().collect().await.map(|c| c.to_bytes().to_vec()).unwrap_or_else(|_| b"?body-error".to_vec());
@@ -388,7 +406,7 @@ impl Engine {
 		let msg = unhex(parts[2]);
 		let quiet = Duration::from_millis(parts.get(3).and_then(|q| q.parse().ok()).unwrap_or(20));
 		match parts[0] {
-			"http" => self.http_case(parts[1], msg).await,
+			"http" | "httpl" | "httpc" => self.http_case(parts[1], msg, parts[0]).await,
 			"ws" => self.ws_case(parts[1], msg, false, quiet).await,
 			"wsb" => self.ws_case(parts[1], msg, true, quiet).await,
 			_ => "?bad-transport".into(),
